@@ -54,7 +54,7 @@ func worldHTTPPlugins(w *World) {
 		plug["hostHeaderRewrite"] = rewriteHost
 	}
 	if setReq {
-		plug["requestHeaders"] = map[string]any{"set": map[string]string{"X-From-Frp": "yes", "X-Hdr-0": "overridden"}}
+		plug["requestHeaders"] = map[string]any{"set": map[string]string{"X-From-Frp": "yes", "X-Hdr-0": "overridden", "x-hdr-1": "forced"}}
 	}
 	if userHTTPS {
 		plug["crtPath"], plug["keyPath"] = cd+"/server.crt", cd+"/server.key"
